@@ -828,7 +828,7 @@ int ext2_stale_ok(int id, int kind, int band)
 	return ext3_stale_ok(id, kind, band);
 }
 void ext2_wait_block(struct rthr *th) { ext3_wait_block(th); }
-void ext2_time_advance(int64_t from, int64_t to) { (void)from; (void)to; }
+void ext2_time_advance(int64_t from, int64_t to) { (void)from; ext3_time_advance(to); }
 
 const char *ext2_uaf_prop(void)
 {
